@@ -34,7 +34,9 @@ type PubSession struct {
 	disposeOnce sync.Once
 	udpConn     *nazanet.UdpConnection
 	listener    net.Listener
+	tcpMu       sync.Mutex // guards tcpConn and tcpDisposed: the accept loop and dispose() run in different goroutines
 	tcpConn     net.Conn
+	tcpDisposed bool
 	sessionStat base.BasicSessionStat
 }
 
@@ -202,22 +204,33 @@ func (session *PubSession) runLoopUdp() error {
 }
 
 func (session *PubSession) runLoopTcp() error {
+	// the session ends when dispose() closes the listener; the reading goroutines have ended by the time RunLoop returns
+	var readers sync.WaitGroup
 	for {
 		conn, err := session.listener.Accept()
 		if err != nil {
 			nazalog.Debugf("[%s] stop accept. err=%+v", session.UniqueKey(), err)
+			readers.Wait()
 			return err
 		}
 
+		session.tcpMu.Lock()
+		if session.tcpDisposed {
+			session.tcpMu.Unlock()
+			conn.Close()
+			continue
+		}
 		if session.tcpConn != nil {
 			nazalog.Warnf("[%s] tcp conn already exist, close the prev. err=%+v", session.UniqueKey(), err)
 			session.tcpConn.Close()
 			// TODO(chef): [fix] reset unpack 202209
 		}
-
 		session.tcpConn = conn
+		session.tcpMu.Unlock()
 
+		readers.Add(1)
 		go func() {
+			defer readers.Done()
 			lb := make([]byte, 2)
 			buf := nazabytes.NewBuffer(1500) // 初始1500，如果不够会扩容
 			for {
@@ -252,11 +265,19 @@ func (session *PubSession) dispose(err error) error {
 	session.disposeOnce.Do(func() {
 		Log.Infof("[%s] lifecycle dispose gb28181 PubSession. err=%+v", session.UniqueKey(), err)
 		if session.isTcpFlag {
-			if session.tcpConn == nil {
-				retErr = base.ErrSessionNotStarted
-				return
+			// closing the listener ends the accept loop of RunLoop: without it a tcp session could never end (kick, timeout
+			// and shutdown only closed the connection) and kept its port, its goroutine and the group's input slot forever
+			session.tcpMu.Lock()
+			session.tcpDisposed = true
+			if session.listener != nil {
+				retErr = session.listener.Close()
 			}
-			retErr = session.tcpConn.Close()
+			if session.tcpConn != nil {
+				_ = session.tcpConn.Close()
+			} else if session.listener == nil {
+				retErr = base.ErrSessionNotStarted
+			}
+			session.tcpMu.Unlock()
 		} else {
 			if session.udpConn == nil {
 				retErr = base.ErrSessionNotStarted
